@@ -22,7 +22,7 @@ SHARD_TIMEOUT = {'quick': 600, 'thorough': 2400}
 EXHAUSTIVE = {'quick': True, 'thorough': True}
 MIN_HITS = {
     'quick': {'mon:partition': 500, 'mon:bucket': 300, 'mon:mask': 300, 'contract:pick_final': 300, 'contract:pad': 100,
-              'mon:readonly': 500, 'mon:reiterate': 500, 'hit:held-batches': 1000, 'big-dataset': 11},
+              'mon:readonly': 500, 'mon:reiterate': 500, 'hit:held-batches': 1000, 'big-dataset': 11, 'hit:wide-rows': 2},
     'thorough': {'mon:partition': 5000, 'mon:bucket': 3000, 'mon:mask': 3000, 'contract:pick_final': 3000,
                  'contract:pad': 1000, 'mon:readonly': 5000, 'mon:reiterate': 5000, 'hit:held-batches': 4000},
 }
@@ -373,6 +373,33 @@ def run(ctx):
     b = int([3, 7, 100, 1000, 4096, 4097, n - 1, 333][rng.randint(8)])
     ctx.count('big-dataset')
     check_point(ctx, fedjax, cd, rng, n, max(1, b), int(rng.randint(1, 6)), ContractBroken)
+
+  # wide rows: a feature whose padded final batch holds tens of megabytes (any byte-size threshold in the padding code)
+  for cid, rng in ctx.cases('wide', 2 if ctx.quick else 8):
+    i = int(cid.split('/')[1])
+    n, b = [(3000, 4096), (2600, 2048), (5000, 4096), (2100, 8192)][i % 4]
+    raw = {'idx': np.arange(n, dtype=np.int64), 'img': rng.rand(n, 32, 32).astype(np.float32) + 1.0,
+           'wide64': rng.rand(n, 400) + 1.0}
+    gen.freeze(raw)
+    wit = {'family': 'wide', 'N': n, 'batch_size': b, 'bytes_per_row': {'img': 4096, 'wide64': 3200}}
+    r = ctx.call('ClientDataset.padded_batch', lambda: list(cd.ClientDataset(raw).padded_batch(batch_size=b, num_batch_size_buckets=1)), witness=wit)
+    if r.ok:
+      ctx.count('hit:wide-rows')
+      rows = 0
+      for j, bt in enumerate(r.value):
+        m = bt[cd.EXAMPLE_MASK_KEY]
+        real = int(m.sum())
+        okm = bool(m[:real].all()) and not bool(m[real:].any())
+        ctx.check(okm and len(m) == b, 'mask/prefix', f'wide rows: batch {j} mask is not a True-prefix / wrong size', {**wit, 'batch': j})
+        for name in raw:
+          v = bt[name]
+          ctx.check(v.dtype == raw[name].dtype and v.shape == (b,) + raw[name].shape[1:] and bit_equal(v[:real], raw[name][rows:rows + real]),
+                    'partition/padded-content', f'wide rows: batch {j} feature {name} real rows differ from the dataset', {**wit, 'batch': j})
+          ctx.check(not np.any(v[real:]), 'mask/pad-zero', f'wide rows: batch {j} feature {name}: padded rows are not zero '
+                    f'({real} real rows of {v[0].nbytes} bytes each)', {**wit, 'batch': j, 'feature': name})
+        rows += real
+      ctx.check(rows == n, 'partition/padded-count', f'wide rows: {rows} real rows emitted for {n} examples', wit)
+    ctx.case_done(('wide', n, b), sample=wit, klass=['wide-rows'])
 
 TECHNIQUE = 'runtime monitoring: reference-partition oracle + icontract postconditions over an exhaustive small box and random points'
 LEVEL_TEXT = ('Every (N, batch_size, buckets) point of a small box is executed on the real batching code (exhaustive within the '
